@@ -77,6 +77,7 @@ var profC08w = profile{
 	setups: []string{"totp", "sms", "recovery", "expire"}, kinds: kindsC08w, minOps: 14, maxOps: 34,
 	accts: [2]int{2, 3}, browsers: [2]int{1, 3}, middlewares: []string{"", "remember", "remember", "expire"},
 	faultPct: 12, faultKinds: []string{"generic", "generic", "notfound"},
+	jsonMangle: 4,
 }
 
 func TestC08World(t *testing.T) {
